@@ -255,6 +255,37 @@ def r4_3(ctx):
     ctx.ob("make_move:no-hop-on-ordinary-text", not extra, b.where(b.term_loc(extra[0])) if extra else b.file, "under `d4e5` no constant-square move_piece is reachable")
 
 
+def r4_5(ctx):
+    """Promotion follows the move text: a five-character text always rewrites the arrival square with the
+    named piece, a four-character text never does (string guards evaluated per text, as in R4.3)."""
+    f = ctx.facts
+    b = f.body(MM)
+    ctx.note_fn(MM)
+    ex = Exprs(b)
+    bp = _board_param(b)
+    sp = _str_param(b)
+    ev = board_events(b, ex, bp)
+    pw = sorted(loc for loc, e in ev.items() if e[0] == "write" and e[1] == "board" and e[2][0] == "agg" and e[2][2] == "Full")
+    ctx.floor("promotion writes in make_move", len(pw), 1)
+    rets = b.return_blocks()
+    pblocks = {loc[0] for loc in pw}
+    ndec = 0
+    for m in ("a7a8q", "a2a1q", "h7g8n", "h2h1r", "e7e8b", "b2c1b"):
+        ref, decided = refuted_edges_concrete(b, ex, {("arg", sp): m, ("deref", ("arg", sp)): m})
+        ndec = max(ndec, decided)
+        bypass = [r for r in rets if b.reaches(0, r, removed_nodes=pblocks, removed_edges=ref)]
+        ctx.ob("make_move:text(%s):promotes" % m, not bypass, b.where(pw[0]) if pw else b.file,
+               "the promotion text `%s` %s" % (m, "can be applied without rewriting the arrival square: the promotion depends on something other than the text (string guards evaluated for this text)" if bypass
+                                                else "rewrites the arrival square on every path"))
+    for m in ("a7a8", "a2a1", "e2e4", "e1g1", "h7g8"):
+        ref, decided = refuted_edges_concrete(b, ex, {("arg", sp): m, ("deref", ("arg", sp)): m})
+        ndec = max(ndec, decided)
+        hit = [loc for loc in pw if b.reaches(0, loc[0], removed_edges=ref)]
+        ctx.ob("make_move:text(%s):no-promotion" % m, not hit, b.where(hit[0]) if hit else b.file,
+               "the four-character text `%s` %s" % (m, "can reach the promotion write" if hit else "never rewrites the arrival square"))
+    ctx.floor("string guards decided per promotion text", ndec, 1)
+
+
 def r4_4(ctx):
     """play_out_position: board from from_fen on both branches; mutated only by make_move in input order."""
     f = ctx.facts
